@@ -283,12 +283,34 @@ def rule_R4(ctx, prj):
         else:
             ctx.ok("R4", f.site(), f"{f.local}: no splitlines()")
     g = prj.func(f"{SRC}:get_newline_indices")
-    tests = [n for n in g.walk() if isinstance(n, ast.Compare) and len(n.ops) == 1 and isinstance(n.ops[0], ast.Eq)
+    # the newline table evaluated on texts with every kind of character str.splitlines() would break at
+    from ..absint import MiniInterp as _MI, PyRaise as _PR, Unknown as _UK
+    try:
+        texts = ["", "abc", "\n", "a\nb\n", "a\r\nb", "\ra", "a\fb\n", "a\u2028b\n\n", "\x0b\x1c\x1d\x1e\x85 \n\u2029", "\n\n\nx", "x\n" * 3 + "y"]
+        badt = None
+        for t in texts:
+            r = _MI(prj, max_steps=100000).call(g, [t], {})
+            r = list(r.rest()) if hasattr(r, "rest") else list(r) if isinstance(r, (list, tuple)) else r
+            want = [i for i, c in enumerate(t) if c == "\n"]
+            if r != want:
+                badt = badt or (t, r, want)
+        if badt:
+            ctx.viol("R4", "get_newline_indices/definition", g.site(), f"get_newline_indices({badt[0]!r}) gives {badt[1]}; required {badt[2]}: the offsets of exactly the characters equal to '\\n' "
+                                                                       f"(pygments and location_to_index treat no other character as a line end)")
+        else:
+            ctx.ok("R4", g.site(), f"get_newline_indices: offsets of exactly the characters equal to '\\n' (evaluated on {len(texts)} texts with \\r, \\f, \\v, \\x1c-\\x1e, \\x85, U+2028/9)")
+        evaluated_table = True
+    except (_UK, _PR) as e:
+        ctx.info(f"R4: get_newline_indices not evaluable ({e}); its form is read syntactically")
+        evaluated_table = False
+    tests = [] if evaluated_table else [n for n in g.walk() if isinstance(n, ast.Compare) and len(n.ops) == 1 and isinstance(n.ops[0], ast.Eq)
              and "\n" in (const_str(n.left), const_str(n.comparators[0]))]
     others = [n for n in g.walk() if isinstance(n, ast.Compare) and len(n.ops) == 1 and isinstance(n.ops[0], (ast.Eq, ast.In))
               and (const_str(n.left) or const_str(n.comparators[0]) or "\n") != "\n"]
     finds = [c for c in g.calls() if isinstance(c.func, ast.Attribute) and c.func.attr in ("find", "index", "finditer") ]
-    if tests and not others:
+    if evaluated_table:
+        pass
+    elif tests and not others:
         appended = [c for c in g.calls() if isinstance(c.func, ast.Attribute) and c.func.attr == "append" and c.args]
         idx_ok = True
         for a in appended:
@@ -306,7 +328,7 @@ def rule_R4(ctx, prj):
     elif finds or any(isinstance(c.func, ast.Attribute) and c.func.attr == "splitlines" for c in g.calls()):
         pass    # judged above / not a recognised form
     else:
-        ctx.viol("R4", "get_newline_indices/definition", g.site(), "get_newline_indices does not select exactly the characters equal to '\\n'")
+        raise AnalysisError(f"{g.disp}: how the newline table is built could be neither evaluated nor read off its syntax")
     l2i = prj.func(f"{SRC}:location_to_index")
     sp = [c for c in l2i.calls() if isinstance(c.func, ast.Attribute) and c.func.attr == "split"]
     if sp and all(c.args and const_str(c.args[0]) == "\n" for c in sp):
